@@ -15,3 +15,14 @@ for p in sorted(glob.glob(os.path.join(V, 'mutants', '*.diff'))):
     name = os.path.basename(p)[:-5]
     files = [l[6:].strip() for l in open(p) if l.startswith('+++ b/')]
     print(f"| {name} | {name.split('-')[0]} | {', '.join(files)} |")
+print()
+print('| Seed (seeded/<id>/) | What was changed | Needs to manifest | Reported by (quick, seed 1) |\n|---|---|---|---|')
+for p in sorted(glob.glob(os.path.join(V, 'seeded', '*', 'meta.json'))):
+    m = json.load(open(p))
+    sid = os.path.basename(os.path.dirname(p))
+    runs = []
+    for chk, r in sorted(m.get('checks_run', {}).items()):
+        sig = (r['signatures'] or ['-'])[0].split(' (')[0]
+        runs.append(f"{chk.split()[0]}: `{sig}`" if r['exit'] == 1 else f"{chk.split()[0]}: not reported")
+    cut = lambda t, n: (t[:n].rsplit(' ', 1)[0] + ' ...') if len(t) > n else t
+    print(f"| {sid} | {cut(m.get('summary', ''), 260)} | {cut(m.get('needs', ''), 200)} | {'; '.join(runs)} |".replace('\n', ' '))
